@@ -24,6 +24,12 @@ func init() {
 			"(R03.3) every attribute value written after `=` is the result of the one quoting routine html.EscapeAttrVal. The trait tables themselves are decided under C17. Not covered: whitespace significance per document, optional-tag inference in every parent context, `</script` inside script text.",
 		Run: runC03,
 	})
+	mutant(&Mutant{Name: "c03-anchor-name-dropped-ignoring-case", Property: "C03", File: "html/html.go",
+		Old: "if bytes.Equal(id.AttrVal, name.AttrVal) {", New: "if bytes.EqualFold(id.AttrVal, name.AttrVal) {",
+		Rule: "R03.10", Construct: "dropped as a duplicate"})
+	mutant(&Mutant{Name: "c03-pre-newline-removed-in-advance", Property: "C03", File: "html/html.go",
+		Old: "\t\t\t// keep space after phrasing tags (<i>, <span>, ...) FontAwesome etc.\n", New: "\t\t\tif t.Hash == Pre {\n\t\t\t\tif next := tb.Peek(0); next.TokenType == html.TextToken && 0 < len(next.Data) && next.Data[0] == '\\n' {\n\t\t\t\t\tnext.Data = next.Data[1:]\n\t\t\t\t}\n\t\t\t}\n\t\t\t// keep space after phrasing tags (<i>, <span>, ...) FontAwesome etc.\n",
+		Rule: "R03.5", Construct: "rewritten ahead of its turn"})
 	mutant(&Mutant{Name: "c03-empty-colgroup-dropped", Property: "C03", File: "html/html.go",
 		Old: "keepTag = next.TokenType != html.StartTagToken || next.Hash != Col", New: "keepTag = false",
 		Rule: "R03.9", Construct: "colgroup tag dropped"})
@@ -86,6 +92,7 @@ func runC03(c *Ctx) {
 	c.r031(pk, fd)
 	c.r032(pk, fd)
 	c.r038(pk, fd)
+	c.r0310(pk, fd)
 	c.r033(pk, fd)
 	c.r034(pk, fd)
 }
@@ -733,4 +740,36 @@ func (c *Ctx) tagDropLooksAhead(pk *packages.Package, fd *ast.FuncDecl, rule, el
 	}
 	_ = info
 	c.R.Floor(rule, "removal conditions naming "+elem, n, 1)
+}
+
+// R03.10: one attribute makes another redundant only when their values are the same bytes.
+func (c *Ctx) r0310(pk *packages.Package, fd *ast.FuncDecl) {
+	const rule = "R03.10"
+	c.R.Rule(rule, "html.(*Minifier).Minify drops an attribute as a duplicate of another one (`<a id=x name=x>`: the name says nothing the id does not). IDs and names are compared case-sensitively by browsers (`#top` does not find `id=Top`), so the two values must be the same bytes: wherever an attribute is removed (`….Text = nil`) under a comparison of the AttrVal of two different attribute tokens, that comparison is bytes.Equal")
+	info := pk.TypesInfo
+	g := c.graph(pk, fd)
+	n := 0
+	for _, y := range g.Nodes {
+		as, ok := y.Stmt.(*ast.AssignStmt)
+		if !ok || y.Kind != flow.KStmt || len(as.Lhs) != 1 || len(as.Rhs) != 1 || !strings.HasSuffix(nospace(str(as.Lhs[0])), ".Text") || !isNilExpr(as.Rhs[0]) {
+			continue
+		}
+		for _, f := range g.DomFacts(y) {
+			if !f.Value || f.Test.Kind != flow.KCond {
+				continue
+			}
+			call, ok := ast.Unparen(f.Test.Expr).(*ast.CallExpr)
+			if !ok || len(call.Args) != 2 {
+				continue
+			}
+			a0, a1 := nospace(str(call.Args[0])), nospace(str(call.Args[1]))
+			if !strings.HasSuffix(a0, ".AttrVal") || !strings.HasSuffix(a1, ".AttrVal") || a0 == a1 {
+				continue
+			}
+			n++
+			cn := calleeName(info, call)
+			c.R.Check(cn == "bytes.Equal", rule, fmt.Sprintf("html.Minifier.Minify/%s dropped as a duplicate#%d", nospace(str(as.Lhs[0])), n), c.pos(call), "bytes.Equal of the two values", "an attribute is removed because "+cn+" calls its value the same as another attribute's: values that differ (in case) are different names — `<a id=Top name=top>` loses the anchor `top`")
+		}
+	}
+	c.R.Floor(rule, "attributes dropped as duplicates of another attribute", n, 1)
 }
